@@ -69,8 +69,17 @@ def maybe_download(url: str,
       r.raise_for_status()
       length = int(r.headers['content-length'])
       block_size = 1 << 18
+      num_bytes = 0
       for _ in progress_((length + block_size - 1) // block_size):
-        fo.write(r.raw.read(block_size))
+        block = r.raw.read(block_size)
+        num_bytes += len(block)
+        fo.write(block)
+    # A connection closed early inside the last block yields a short read
+    # without an error, so check the size before promoting the partial file.
+    if num_bytes != length:
+      raise IOError(
+          f'Incomplete download of {url!r}: expected {length} bytes but got '
+          f'{num_bytes}.')
     os.rename(path + '.partial', path)
   return path
 
